@@ -22,7 +22,8 @@ def load_rules(prop: str):
         raise
 
 
-VM_PROPS = {'C01', 'C02', 'C03', 'C05', 'C06', 'C07', 'C08', 'C09', 'C16', 'C17', 'C20'}
+VM_PROPS = {'C01', 'C02', 'C03', 'C05', 'C06', 'C07', 'C08', 'C09', 'C16', 'C17'}
+PARSER_PROPS = {'C11', 'C12', 'C20'}
 
 
 def run_property(prop: str, tier: str, seed: int, quiet: bool = False) -> tuple[int, Report]:
@@ -38,10 +39,10 @@ def run_property(prop: str, tier: str, seed: int, quiet: bool = False) -> tuple[
         notes = getattr(world.repo, 'inline_notes', None) or {}
         for x in notes.get('inlined', [])[:12]:
             rep.note(f'helper inlined before analysis: {x}')
-        if notes.get('opaque') and prop in VM_PROPS:
-            # a helper called from VM code that the analyser cannot look into: its effects are unknown
-            for x in notes['opaque'][:5]:
-                rep.error(f'helper not analysable: {x}')
+        # a helper called from code this property reads that the analyser cannot look into: its effects are unknown
+        scope = ('functions.', 'classes.') if prop in VM_PROPS else (('parsing.',) if prop in PARSER_PROPS else ())
+        for x in [o for o in notes.get('opaque', []) if o.startswith(scope)][:5] if scope else []:
+            rep.error(f'helper not analysable: {x}')
         world.__dict__.setdefault('_dep_cache', {})[f'rules_{prop.lower()}'] = 'running'
         mod.run(world, rep)
         if tier == 'thorough' and hasattr(mod, 'run_thorough'):
